@@ -60,3 +60,17 @@ Theorem C08_reverse_is_rev_forward : forall (r : rule) (occs : list ivl),
     fetch_reverse r a b = Ok (rev (filter (fun i => (a <? fend i) && (fstart i <=? b)) occs)).
 Proof. exact fetch_reverse_is_rev_forward. Qed.
 Print Assumptions C08_reverse_is_rev_forward.
+
+(* occurrences that began before the window but reach into it are included however long the
+   duration is relative to the period: nothing that ends after the window start A lies before
+   the date the expansion starts from *)
+Theorem C08_lookback_sufficient : forall (r : rule) (A a d S : Z) (i : ivl),
+  0 < r_interval r ->
+  0 <= r_sod r < DAY ->
+  zone_spread_le (r_zone r) S -> 2 * S <= DAY ->
+  safe_anchor r (local_day (r_zone r) (A - lookback_buffer r)) = Some a ->
+  d < a ->
+  occurrence_to_interval r d = Some i ->
+  fend i <= A.
+Proof. exact anchor_before. Qed.
+Print Assumptions C08_lookback_sufficient.
